@@ -747,10 +747,9 @@ def _cost():
                      {"C05": t}, "COST", meta=dict(op=w, kind=kind, n=n, tables="any", budget="Floyd: sum of sift-down budgets"),
                      covers_required=False, cost=(n + 1) * (30 if heavy else 8))
         # append of two queues of equal length: sifting the moved elements up one by one
-        # (k log n) leaves the Floyd budget at 16 + 16
-        for n, t in ((2, QUICK), (4, THOROUGH), (8, THOROUGH), (16, THOROUGH)):
-            if dq and n == 16:
-                continue
+        # (k log n) would leave the Floyd budget only at 16 + 16
+        # (measured: 16 + 16 runs out of memory after 36 min, so it is not an instance)
+        for n, t in ((2, QUICK), (4, THOROUGH), (8, THOROUGH)):
             inst(f"cost_{kind}_bulk_append_eq_n{n}", f"cost::cost_bulk::<{ty}, {n}>(7, Tables::{'Any' if n <= 4 else 'Identity'})", kind, 2 * n,
                  {"C05": t}, "COST", meta=dict(op="append (equal lengths)", kind=kind, n=n, m=n, tables="any" if n <= 4 else "identity"),
                  covers_required=False, cost=60 * n * (4 if dq else 1), mem=3 if n < 16 else 12)
